@@ -593,6 +593,83 @@ def _fuse_filter_loops(fn: ast.AST) -> int:
     return count
 
 
+# --------------------------------------------------------------------------- N15: a loop over a small constant table -> its rows
+def unroll_table_loops(tree: ast.Module, lookup=None) -> int:
+    """N15:  ROWS = (("code", int, "an integer"), ("message", str, "a string"))
+             for member, kind, wanted in ROWS:            if not ("code" in e and isinstance(e["code"], int)): raise …
+                 if not (member in e and …): raise …  ->  if not ("message" in e and isinstance(e["message"], str)): raise …
+    for a module-level tuple/list display of at most 8 rows whose elements are literals or plain names, a loop target of
+    plain names the body does not rebind, and a body without break/continue/else/yield.  `lookup(name)` finds the display
+    when it is imported from another module."""
+    tables = {}
+    for st in tree.body:
+        tg = st.targets[0] if isinstance(st, ast.Assign) and len(st.targets) == 1 else (st.target if isinstance(st, ast.AnnAssign) else None)
+        v = getattr(st, "value", None)
+        if isinstance(tg, ast.Name) and isinstance(v, (ast.Tuple, ast.List)):
+            tables[tg.id] = v
+    rebinds = {}
+    for n in ast.walk(tree):
+        if isinstance(n, ast.Name) and isinstance(n.ctx, (ast.Store, ast.Del)):
+            rebinds[n.id] = rebinds.get(n.id, 0) + 1
+
+    def table_of(e):
+        if isinstance(e, (ast.Tuple, ast.List)):
+            return e
+        if isinstance(e, ast.Name):
+            if e.id in tables and rebinds.get(e.id, 0) == 1:
+                return tables[e.id]
+            if lookup is not None and e.id not in rebinds:
+                return lookup(e.id)
+        return None
+
+    def simple(x):
+        return isinstance(x, (ast.Constant, ast.Name)) or (isinstance(x, ast.Attribute) and simple(x.value)) or (isinstance(x, ast.UnaryOp) and isinstance(x.operand, ast.Constant))
+
+    count = 0
+
+    class U(ast.NodeTransformer):
+        def visit_For(self, node: ast.For):
+            self.generic_visit(node)
+            nonlocal count
+            t = table_of(node.iter)
+            if t is None or node.orelse or not (1 <= len(t.elts) <= 8):
+                return node
+            names = [node.target] if isinstance(node.target, ast.Name) else (list(node.target.elts) if isinstance(node.target, ast.Tuple) else None)
+            if not names or not all(isinstance(x, ast.Name) for x in names):
+                return node
+            rows = []
+            for r in t.elts:
+                cells = [r] if isinstance(node.target, ast.Name) else (list(r.elts) if isinstance(r, (ast.Tuple, ast.List)) else None)
+                if cells is None or len(cells) != len(names) or not all(simple(c) for c in cells):
+                    return node
+                rows.append(cells)
+            ids = {x.id for x in names}
+            for b in node.body:
+                for x in ast.walk(b):
+                    if isinstance(x, (ast.Break, ast.Continue, ast.Yield, ast.YieldFrom, ast.FunctionDef, ast.AsyncFunctionDef, ast.Lambda)):
+                        return node
+                    if isinstance(x, ast.Name) and x.id in ids and not isinstance(x.ctx, ast.Load):
+                        return node
+            out = []
+            for cells in rows:
+                m = {n_.id: c for n_, c in zip(names, cells)}
+
+                class S(ast.NodeTransformer):
+                    def visit_Name(self_, n_):
+                        if isinstance(n_.ctx, ast.Load) and n_.id in m:
+                            return ast.copy_location(copy.deepcopy(m[n_.id]), n_)
+                        return n_
+
+                out += [S().visit(copy.deepcopy(b)) for b in node.body]
+            count += 1
+            return out
+
+    U().visit(tree)
+    if count:
+        ast.fix_missing_locations(tree)
+    return count
+
+
 def normalize(tree: ast.Module) -> int:
     nz = Normalizer()
     nz.visit(tree)
